@@ -75,7 +75,13 @@ def cmd_manifest(a):
     checks = []
     claimed = set()
     cdir = os.path.join(core.VERIF, "checks")
+    ready = None
+    rp = os.path.join(cdir, "ready.txt")
+    if os.path.exists(rp):
+        ready = set(open(rp).read().split())
     for pid in sorted(os.listdir(cdir)):
+        if ready is not None and pid not in ready:
+            continue
         mp = os.path.join(cdir, pid, "meta.json")
         if not os.path.exists(mp) or not os.path.exists(os.path.join(cdir, pid, "check.py")):
             continue
@@ -107,6 +113,17 @@ def cmd_manifest(a):
                         "kind_free_text": "TLA+ specification under /verif/spec checked by TLC (MC / simulate / GEN) and bound to /repo by replay and trace validation drivers under /verif/harness and /verif/checks"}]
     with open(os.path.join(core.VERIF, "MANIFEST.json"), "w") as f:
         json.dump(base, f, indent=1)
+    # merge known_findings.d/*.json into the single committed known-findings file
+    import glob
+    merged, seen = [], set()
+    for kf in sorted(glob.glob(os.path.join(core.VERIF, "known_findings.d", "*.json"))):
+        for k in json.load(open(kf)).get("findings", []):
+            if (k["property"], k["key"]) not in seen:
+                seen.add((k["property"], k["key"]))
+                merged.append(k)
+    with open(os.path.join(core.VERIF, "known_findings.json"), "w") as f:
+        json.dump({"_comment": "generated by ./vf manifest from known_findings.d/*.json; status known = recorded genuine defect (check prints KNOWN-FINDING), fixed = repaired by the named fix: commit in /repo (suppresses nothing)",
+                   "findings": merged}, f, indent=1)
     r = subprocess.run(["python3-vt", "-c", "import json,jsonschema,sys; jsonschema.validate(json.load(open(sys.argv[1])), json.load(open('/root/.vp/MANIFEST.schema.json'))); print('MANIFEST valid,', len(json.load(open(sys.argv[1]))['checks']), 'checks')",
                         os.path.join(core.VERIF, "MANIFEST.json")], capture_output=True, text=True)
     print(r.stdout + r.stderr)
